@@ -28,6 +28,10 @@ P_NoInternal(o) == o.internal = <<>>
 \* connection, and none of these calls raises
 P_InboundReal(o) == /\ o.inboundReal.raised = <<>> /\ o.inboundReal.gotWhilePaused = 0 /\ o.inboundReal.gotAfterResume = 1
                     /\ o.inboundReal.pausedAfterReconnect /\ o.inboundReal.gotAfterSecondResume = 1
+                    \* every way an application may use its subchannel's transport (pause / resume / stop / loseConnection, one or two
+                    \* subchannels): the peer's data flows exactly when nobody is asking for a pause any more
+                    /\ \A i \in DOMAIN o.inboundReal.apiSeqs : /\ o.inboundReal.apiSeqs[i].flows = o.inboundReal.apiSeqs[i].expectFlow
+                                                               /\ o.inboundReal.apiSeqs[i].raised = <<>>
 
 VARIABLE k
 Init == k = 0
